@@ -21,11 +21,16 @@
      C05_model_filters_are_source
                      the hand-written filters of Model/Block.v (generate_item_list, run by C10's K1 / K2) and of
                      Model/Placement.v (in_flow_children, estimate_children, run by the placement K) ARE the translated ones
+   BLOCK ALGORITHM as a resumption (Model/BlockAlg.v: compute_inner over the engine interface, built from the translated item
+   pipeline and the in-flow step function that C10's K runs against the implementation):
+     C05_block_algorithm_hidden_blind    HiddenBlind HOLDS for it (no longer a premise for block containers)
+     C05_block_engine_hidden_invisible   hence the conclusion of C05_hidden_blind_engine for every engine whose nodes are block
+                                         containers or leaves (any function of the node's own style and input)
    Interface hypotheses (premises, validated on the implementation by the metamorphic oracle `vh c05 oracle` and -- WF, H1 --
    by the event trace): WF, H1 (EngineDirty.v), SetsZeroOnHidden, HiddenBlind. *)
 From Coq Require Import List Bool Arith NArith ZArith QArith.
 From TV Require Import Num.Num Gen.BlockGen Model.Block.
-From TV Require Import Model.FiltersBase Gen.FiltersGen Model.ItemFilters Proofs.ItemFilters.
+From TV Require Import Model.FiltersBase Gen.FiltersGen Model.ItemFilters Proofs.ItemFilters Model.BlockAlg Proofs.BlockAlgBlind.
 From TV Require Import Num.QNum Model.Common Model.Leaf Model.Root Proofs.LeafProofs Proofs.HiddenRoot.
 From TV Require Import Model.Engine Model.EngineToy Proofs.EngineMemo Proofs.EngineDirty Proofs.EngineToyProofs
   Proofs.EngineHidden Proofs.EngineBlind Proofs.EngineHiddenToy.
@@ -294,6 +299,42 @@ Proof.
   - cbv beta. rewrite Hb. right. split; [reflexivity|assumption].
 Qed.
 
+(* ---------------------------------------------------------------------------------------------- the block algorithm *)
+
+Theorem C05_block_algorithm_hidden_blind :
+  forall (T : Type) (N : Num T) (pre : BStyle T -> BIn T -> BIn T) (abs_child : @AbsChild T),
+    HiddenBlind (BStyle T) (BIn T) (ChildOut T) (BLayout T) bs_is_none (block_alg pre abs_child) /\
+    (* the view: every display:none style is read as one bare display:none style *)
+    (forall s st i, block_alg pre abs_child s st i = block_alg pre abs_child s (map hidden_view st) i) /\
+    (forall a b : BStyle T, bs_is_none a = true -> bs_is_none b = true -> hidden_view a = hidden_view b).
+Proof.
+  intros T N pre abs_child. split; [apply block_alg_hidden_blind|]. split.
+  - intros s st i. unfold block_alg. apply block_inner_alg_none_rel. apply hidden_view_rel.
+  - intros a b Ha Hb. unfold hidden_view. rewrite Ha, Hb. reflexivity.
+Qed.
+
+(* engines made of block containers (sel s = true) and leaves: replacing display:none subtrees changes nothing elsewhere *)
+Theorem C05_block_engine_hidden_invisible :
+  forall (T : Type) (N : Num T) (pre : BStyle T -> BIn T -> BIn T) (abs_child : @AbsChild T)
+         (sel : BStyle T -> bool) (leaf : BStyle T -> BIn T -> ChildOut T)
+         (mode : BIn T -> RunMode) (in_eqb : BIn T -> BIn T -> bool) (hidden_out : ChildOut T) (zero_lay : BLayout T),
+    let algo := fun s st i => if sel s then block_alg pre abs_child s st i
+                              else Engine.Ret (BIn T) (ChildOut T) (BLayout T) (leaf s i) in
+    forall k k', hsim (BStyle T) bs_is_none k k' ->
+    forall f i,
+      plain (BStyle T) (BIn T) (ChildOut T) (BLayout T) mode bs_is_none hidden_out algo f k i =
+      plain (BStyle T) (BIn T) (ChildOut T) (BLayout T) mode bs_is_none hidden_out algo f k' i /\
+      orel (BStyle T) (BIn T) (ChildOut T) (BLayout T) bs_is_none
+           (memo (BStyle T) (BIn T) (ChildOut T) (BLayout T) mode in_eqb bs_is_none hidden_out zero_lay algo f
+                 (fresh (BStyle T) (BIn T) (ChildOut T) (BLayout T) zero_lay k) i)
+           (memo (BStyle T) (BIn T) (ChildOut T) (BLayout T) mode in_eqb bs_is_none hidden_out zero_lay algo f
+                 (fresh (BStyle T) (BIn T) (ChildOut T) (BLayout T) zero_lay k') i).
+Proof.
+  intros T N pre abs_child sel leaf mode in_eqb hidden_out zero_lay algo k k' Hs f i.
+  apply C05_hidden_blind_engine; [|exact Hs].
+  apply HiddenBlind_dispatch; [apply block_alg_hidden_blind|apply HiddenBlind_leaf].
+Qed.
+
 (* ---------------------------------------------------------------------------------------------- grid placement *)
 
 (* the placement section of compute_grid_layout (size estimate + placement + what detailed_layout_info reports) cannot see
@@ -334,3 +375,5 @@ Print Assumptions C05_flex_items_ignore_hidden.
 Print Assumptions C05_block_items_ignore_hidden.
 Print Assumptions C05_grid_items_ignore_hidden.
 Print Assumptions C05_model_filters_are_source.
+Print Assumptions C05_block_algorithm_hidden_blind.
+Print Assumptions C05_block_engine_hidden_invisible.
